@@ -617,6 +617,15 @@ class FnEmitter:
         ck = e.get('castKind')
         sub = children(e)[-1] if children(e) else None
         if ck == 'LValueToRValue':
+            inner = strip_casts(sub, ('ParenExpr',))
+            if inner.get('kind') == 'ConditionalOperator' and not self.tm.is_elem(inner['type']):
+                # value of an lvalue conditional: no need to form addresses (one arm may be a constant such as kMaxSize)
+                c, x, y = children(inner)
+                cc = self.rv(c)
+                px, tx = self.sub_scoped(x, self.val)
+                py, ty = self.sub_scoped(y, self.val)
+                if not px and not py:
+                    return '(%s ? %s : %s)' % (cc, tx, ty)
             return self.lv(sub)
         if ck in ('NoOp', 'FunctionToPointerDecay', 'BuiltinFnToFnPtr', 'UserDefinedConversion', 'ConstructorConversion'):
             return self.val(sub)
